@@ -240,6 +240,7 @@ func Explore(sh *Shared, fn *ssa.Function, cfg Config) *HarnessResult {
 			return
 		}
 		defer solver.Close()
+		ws := &workerState{}
 		if lf := os.Getenv("GOSYM_SOLVER_LOG"); lf != "" && id == 0 {
 			if f, err := os.Create(lf); err == nil {
 				solver.Log = f
@@ -275,12 +276,12 @@ func Explore(sh *Shared, fn *ssa.Function, cfg Config) *HarnessResult {
 			active++
 			mu.Unlock()
 
-			pr := runPathEmit(sh, fn, it.prefix, solver, solver2, cfg, nil, func(w []Decision) {
+			pr := runPathWS(sh, fn, it.prefix, solver, solver2, cfg, nil, func(w []Decision) {
 				mu.Lock()
 				queue = append(queue, workItem{w})
 				cond.Signal()
 				mu.Unlock()
-			})
+			}, ws)
 
 			mu.Lock()
 			active--
@@ -382,14 +383,23 @@ func RunPath(sh *Shared, fn *ssa.Function, prefix []Decision, solver, solver2 *s
 	return runPathEmit(sh, fn, prefix, solver, solver2, cfg, concrete, nil)
 }
 
+// workerState survives across the paths executed by one worker (memoised immutable values).
+type workerState struct {
+	regexps map[string]value
+}
+
 func runPathEmit(sh *Shared, fn *ssa.Function, prefix []Decision, solver, solver2 *sym.Solver, cfg Config, concrete map[string]uint64, emit func([]Decision)) (pr *PathResult) {
+	return runPathWS(sh, fn, prefix, solver, solver2, cfg, concrete, emit, &workerState{})
+}
+
+func runPathWS(sh *Shared, fn *ssa.Function, prefix []Decision, solver, solver2 *sym.Solver, cfg Config, concrete map[string]uint64, emit func([]Decision), ws *workerState) (pr *PathResult) {
 	p := newPathCtx(prefix, solver, solver2, fn.Name())
 	p.concrete = concrete
 	p.emit = emit
 	if cfg.MaxSteps > 0 {
 		p.maxSteps = cfg.MaxSteps
 	}
-	i := &interpreter{Shared: sh, globals: map[*ssa.Global]*value{}, inited: map[*ssa.Package]bool{}, path: p, envst: &envState{}}
+	i := &interpreter{Shared: sh, globals: map[*ssa.Global]*value{}, inited: map[*ssa.Package]bool{}, path: p, envst: &envState{}, ws: ws}
 	pr = p.res
 	defer func() {
 		pr.Decisions = p.decisions
